@@ -105,9 +105,10 @@ axiom("forall(lambda s: DROPS(s, 0) == s, s='STREAM', pats=['DROPS(s, 0)'])")
 # flat-map distributes over concatenation
 axiom("forall(lambda f, a, b: CATS(FLATS(MAPS(f, OFSEQ(a))), FLATS(MAPS(f, OFSEQ(b)))) == FLATS(MAPS(f, OFSEQ(CAT(a, b)))), f='U', a='SEQ', b='SEQ', pats=['CATS(FLATS(MAPS(f, OFSEQ(a))), FLATS(MAPS(f, OFSEQ(b))))'])")
 axiom("forall(lambda f: FLATS(MAPS(f, OFSEQ(EMPTY()))) == EMPTYS(), f='U', pats=['MAPS(f, OFSEQ(EMPTY()))'])")
-axiom("forall(lambda a, b: FAILS(CATS(a, b)) == (FAILS(a) or FAILS(b)), a='STREAM', b='STREAM', pats=['CATS(a, b)'])")
+# (the second stream is reached only after a finite first one that does not fail)
+axiom("forall(lambda a, b: FAILS(CATS(a, b)) == (FAILS(a) or (FIN(a) and FAILS(b))), a='STREAM', b='STREAM', pats=['CATS(a, b)'])")
 axiom("not FAILS(EMPTYS())")
-axiom("forall(lambda a, b: FIN(CATS(a, b)) == (FIN(a) and FIN(b)), a='STREAM', b='STREAM', pats=['CATS(a, b)'])")
+axiom("forall(lambda a, b: FIN(CATS(a, b)) == (FIN(a) and (FAILS(a) or FIN(b))), a='STREAM', b='STREAM', pats=['CATS(a, b)'])")
 axiom("forall(lambda s, k: implies(k >= 0 and (not FIN(s) or k < LEN(SEQOF(s))), CAT(TAKES(s, k), UNIT(NTHS(s, k))) == TAKES(s, k + 1)), s='STREAM', pats=['CAT(TAKES(s, k), UNIT(NTHS(s, k)))'])")
 axiom("OFSEQ(EMPTY()) == EMPTYS()")
 
